@@ -9,5 +9,6 @@ lines += ["Proofs/Sound_glue.v"]          # shared library (sounding-set glue be
 for p in ready:
     lines += sorted(os.path.relpath(f, COQ) for f in glob.glob(os.path.join(COQ, "Proofs", f"{p}_*.v")))
     lines.append(f"Props/{p}.v")
+lines.insert(lines.index("Props/C01.v"), "Proofs/Comp_proofs.v")   # Bar / Track / Composition lemmas (used by Props C10 C11 C14 C16)
 open(os.path.join(COQ, "_CoqProject"), "w").write("\n".join(lines) + "\n")
 print("ready:", ready)
